@@ -286,6 +286,63 @@ PROBES = {
                      ("Begin", 2, 1, "put:", []), ("PutAdmit", 2, 0, "", []), ("PutFS", 2, 0, "", []), ("PutCount", 2, 0, "", []),
                      ("MetaPut", 2, 0, "", []), ("Ret", 2, 0, "", []), ("WDelFS", 1, 1, "", [])]),
 }
+# Coverage scenarios (no finding expected): schedules every run must contain whatever the random walk does.
+_PUT = lambda p, a: [("Begin", p, a, "put:", []), ("PutAdmit", p, 0, "", []), ("PutFS", p, 0, "", []),
+                     ("PutCount", p, 0, "", []), ("MetaPut", p, 0, "", []), ("Ret", p, 0, "", [])]
+_ROUND = [("SchedWake", 0, 0, "", []), ("RoundMark", 0, 0, "", []), ("SchedSnap", 0, 0, "", [])]
+COVER = {
+    # two small objects flushed as ONE batch whose storage write fails with a generic I/O error:
+    # nothing may leave the cache
+    "BatchFail": _steps(_PUT(1, 1) + _PUT(1, 2) + _ROUND + [
+        ("SchedSend", 1, 0, "", []), ("SentMark", 0, 0, "", []), ("WRead", 1, 0, "", []),
+        ("BlobPutW", 1, 0, "fail", [1, 2]), ("WFin", 1, 0, "", []), ("DoneMark", 1, 0, "", [])]),
+    # the same batch succeeding, with a read of each object between the storage write and the cache deletes
+    "BatchOk": _steps(_PUT(1, 1) + _PUT(1, 2) + _ROUND + [
+        ("SchedSend", 1, 0, "", []), ("SentMark", 0, 0, "", []), ("WRead", 1, 0, "", []),
+        ("BlobPutW", 1, 0, "ok", [1, 2]),
+        ("Begin", 2, 1, "get:", []), ("GetMeta", 2, 0, "", []), ("GetHas", 2, 0, "", []), ("GetRead", 2, 0, "", []),
+        ("BlobRead", 2, 0, "", []), ("Ret", 2, 0, "", []),
+        ("WDelFS", 1, 1, "", []), ("WDelCount", 1, 0, "", []), ("WDelFS", 1, 2, "", []), ("WDelCount", 1, 0, "", []),
+        ("WFin", 1, 0, "", []), ("DoneMark", 1, 0, "", []),
+        ("Begin", 2, 2, "get:", []), ("GetMeta", 2, 0, "", []), ("GetHas", 2, 0, "", []), ("BlobRead", 2, 0, "", []),
+        ("Ret", 2, 0, "", [])]),
+    # explicit Flush while a background worker holds the same (big) object between scheduler marking and its
+    # storage write: the flush must write it itself before it returns success
+    "FlushInflight": _steps(_PUT(1, 3) + _ROUND + [
+        ("SchedSend", 1, 0, "", []), ("SentMark", 0, 0, "", []), ("WRead", 1, 0, "", []),
+        ("Begin", 2, 0, "flush:", []), ("FlushStart", 2, 0, "", []), ("FlushPick", 2, 3, "", []),
+        ("BlobPutF", 2, 3, "ok", []), ("FlushDelFS", 2, 0, "", []), ("FlushDelCount", 2, 0, "", []),
+        ("FlushEnd", 2, 0, "", []), ("Ret", 2, 0, "", []),
+        ("BlobPutW", 1, 0, "ok", [3]), ("WDelFS", 1, 3, "", []), ("WFin", 1, 0, "", []), ("DoneMark", 1, 0, "", [])]),
+    # explicit Flush after a background flush of the object failed (object unmarked again, error token pending)
+    "FlushAfterFail": _steps(_PUT(1, 3) + _ROUND + [
+        ("SchedSend", 1, 0, "", []), ("SentMark", 0, 0, "", []), ("WRead", 1, 0, "", []),
+        ("BlobPutW", 1, 0, "fail", [3]), ("WFin", 1, 0, "", []), ("DoneMark", 1, 0, "", []),
+        ("Begin", 2, 0, "flush:", []), ("FlushStart", 2, 0, "", []), ("FlushPick", 2, 3, "", []),
+        ("BlobPutF", 2, 3, "ok", []), ("FlushDelFS", 2, 0, "", []), ("FlushDelCount", 2, 0, "", []),
+        ("FlushEnd", 2, 0, "", []), ("Ret", 2, 0, "", [])]),
+    # a failed flush reported while the scheduler is about to send the batch preceding the FIRST of two big
+    # objects: every address of the abandoned round (sent, current and not reached yet) must be unmarked
+    "ErrRoundAbandoned": _steps(_PUT(1, 1) + [("Begin", 1, 3, "put:", [])] + _ROUND + [
+        ("PutAdmit", 1, 0, "", []), ("PutFS", 1, 0, "", []), ("PutCount", 1, 0, "", []), ("MetaPut", 1, 0, "", []),
+        ("Ret", 1, 0, "", [])] + _PUT(1, 4) + [
+        ("SchedSend", 1, 0, "", []), ("SentMark", 0, 0, "", []), ("SchedWake", 0, 0, "", []), ("RoundMark", 0, 0, "", []),
+        ("WRead", 1, 0, "", []), ("BlobPutW", 1, 0, "fail", [1]), ("WFin", 1, 0, "", []),
+        ("SchedSnap", 0, 0, "", []), ("SchedSendErr", 0, 0, "", []), ("DoneMark", 1, 0, "", [])]),
+    # explicit Flush of a read-only cache: the object reaches the main storage, the cache delete is refused,
+    # file and counters must stay consistent
+    "FlushReadOnly": _steps(_PUT(1, 1) + [
+        ("Begin", 1, 0, "setmode:ro", []), ("SetModeStart", 1, 0, "", []), ("Ret", 1, 0, "", []),
+        ("Begin", 1, 0, "flush:", []), ("FlushStart", 1, 0, "", []), ("FlushPick", 1, 1, "", []),
+        ("BlobPutF", 1, 1, "ok", []), ("FlushDelFS", 1, 0, "", []), ("FlushEnd", 1, 0, "", []), ("Ret", 1, 0, "", []),
+        ("Begin", 1, 0, "setmode:rw", []), ("SetModeStart", 1, 0, "", []), ("Ret", 1, 0, "", [])]),
+}
+
+
+def cover(name):
+    return {"steps": COVER[name], "nw": 1, "name": "cover-" + name}
+
+
 PROBE_CFG = {"H3": "WriteCacheGen_cexH3.cfg", "Alias": "WriteCacheGen_cexAlias.cfg",
              "ErrLeak": "WriteCacheGen_cexErrLeak.cfg", "Split": "WriteCacheGen_cexSplit.cfg",
              "Stale": "WriteCacheGen_cexStale.cfg"}
